@@ -104,5 +104,19 @@ theorem ffcKeyUnpack_eq_plan (v : Bytes) :
     Nat.reduceAdd, ite_not]
   simp (config := { decide := true }) only [ffcKeyOfEnv, arg, List.lookup, Option.getD, if_true, if_false, Py.sliceN, List.drop_zero]
 
+def kdfParamsPlan : List Step × List (String × String) :=
+  ([.magicLit 0 8 [0, 0, 0, 0, 1, 0, 0, 0], .magicLit 12 16 [0, 0, 0, 0], .int "hash_length" 8 12,
+    .textSub "hash_name" (.lit 16) (.add (.lit 16) (.var "hash_length")) 2],
+   [("hash_name", "hash_name")])
+
+theorem kdfParamsUnpack_eq_plan (v : Bytes) :
+    kdfParamsUnpack v = (Plan.run [] kdfParamsPlan.1 v .empty).map (fun e => e.bytes (arg kdfParamsPlan.2 "hash_name")) := by
+  unfold kdfParamsUnpack kdfParamsPlan
+  simp only [Plan.run, Expr.eval, Env.setInt, Env.setBytes, Env.empty, bind, pure, Except.pure, ite_bind, map_ite', map_ok, map_err,
+    Nat.reduceAdd, ite_not]
+  simp (config := { decide := true }) only [arg, List.lookup, Option.getD, if_true, if_false]
+  by_cases h1 : Py.sliceN v 0 8 = [0, 0, 0, 0, 1, 0, 0, 0] <;> by_cases h2 : Py.sliceN v 12 16 = [0, 0, 0, 0] <;>
+    simp [h1, h2, Int.natCast_add]
+
 end Gkdi
 end DpapiNg
